@@ -636,7 +636,7 @@ theorem BookInv.step (s s' : Sys) (m : Msg) (rest0 subs : List Msg)
       simp only [Sys.handle] at hx
       exc_norm at hx
       exc_split at hx
-      rename_i hw _ _
+      rename_i hw _ _ _
       have : who = hubA := Classical.not_not.mp hw
       subst this
       simp [isStake] at hst'
